@@ -25,6 +25,13 @@ type Scenario interface {
 	Shrink(p Plan) []Plan
 }
 
+// Perturber is implemented by scenarios whose verdict can depend on process
+// layout (the race-detector oracle): Perturb returns the plan with layout
+// variant k.
+type Perturber interface {
+	Perturb(p Plan, k int) Plan
+}
+
 // Outcome of executing a plan in-process.
 type Outcome struct {
 	Fail        *Failure
